@@ -19,6 +19,23 @@ def load_scripts(path):
         return [json.loads(l) for l in f if l.strip()]
 
 
+def iter_share(path, first, step):
+    """stream the non-empty lines whose index is first, first+step, ...: a worker never holds more than one script"""
+    i = 0
+    with open(path, encoding="utf-8") as f:
+        for l in f:
+            if not l.strip():
+                continue
+            if i % step == first:
+                yield json.loads(l)
+            i += 1
+
+
+def count_scripts(path):
+    with open(path, encoding="utf-8") as f:
+        return sum(1 for l in f if l.strip())
+
+
 class Mismatch(Exception):
     def __init__(self, cls, site, detail):
         super().__init__(cls)
@@ -361,10 +378,9 @@ def child_threads(path, stage, baton, first, step, replay_sched=None):
     vb = ctypes.CDLL(baton, mode=ctypes.RTLD_GLOBAL)
     vb.vb_run.restype = ctypes.c_int
     import sudachipy  # noqa
-    cases = load_scripts(path)
-    for i in range(first, len(cases), step):
-        print(json.dumps({"begin": cases[i]["case"]}), flush=True)
-        res = run_thread_case(cases[i], sudachipy, vb, sched=replay_sched)
+    for case in iter_share(path, first, step):
+        print(json.dumps({"begin": case["case"]}), flush=True)
+        res = run_thread_case(case, sudachipy, vb, sched=replay_sched)
         print(json.dumps(res, ensure_ascii=False), flush=True)
         if res.get("fatal"):
             sys.stdout.flush()
@@ -372,7 +388,8 @@ def child_threads(path, stage, baton, first, step, replay_sched=None):
 
 
 def run_threads(path, stage, baton, jobs, out, replay_sched=None):
-    cases = load_scripts(path)
+    ncases = count_scripts(path)
+    jobs = max(1, min(jobs, ncases))
     procs = []
     env = dict(os.environ, PYTHONHASHSEED=os.environ.get("PYTHONHASHSEED", "0"))
     for j in range(jobs):
@@ -402,24 +419,24 @@ def run_threads(path, stage, baton, jobs, out, replay_sched=None):
             results.append({"case": -1, "ok": False, "op": 0, "class": "harness-error", "site": "child", "detail": {"returncode": p.returncode, "stderr": se[-600:]}, "stats": {}})
     results.sort(key=lambda r: r["case"])
     with open(out, "w", encoding="utf-8") as f:
-        json.dump({"cases": len(cases), "results": results}, f, ensure_ascii=False)
+        json.dump({"cases": ncases, "results": results}, f, ensure_ascii=False)
     bad = [r for r in results if not r["ok"]]
-    print("pysim-threads: cases=%d results=%d failing=%d" % (len(cases), len(results), len(bad)))
+    print("pysim-threads: cases=%d results=%d failing=%d" % (ncases, len(results), len(bad)))
     return 0 if not bad else 1
 
 
 def child(path, stage, first, step):
     sys.path.insert(0, stage)
     import sudachipy  # noqa
-    scripts = load_scripts(path)
-    for i in range(first, len(scripts), step):
-        print(json.dumps({"begin": scripts[i]["script"]}), flush=True)
-        res = run_script(scripts[i], sudachipy)
+    for sc in iter_share(path, first, step):
+        print(json.dumps({"begin": sc["script"]}), flush=True)
+        res = run_script(sc, sudachipy)
         print(json.dumps(res, ensure_ascii=False), flush=True)
 
 
 def run(path, stage, jobs, out):
-    scripts = load_scripts(path)
+    nscripts = count_scripts(path)
+    jobs = max(1, min(jobs, nscripts))
     procs = []
     env = dict(os.environ, PYTHONHASHSEED=os.environ.get("PYTHONHASHSEED", "0"))
     for j in range(jobs):
@@ -450,9 +467,9 @@ def run(path, stage, jobs, out):
                                 "detail": {"stderr": se[-600:]}, "stats": {}})
     results.sort(key=lambda r: r["script"])
     with open(out, "w", encoding="utf-8") as f:
-        json.dump({"scripts": len(scripts), "results": results}, f, ensure_ascii=False)
+        json.dump({"scripts": nscripts, "results": results}, f, ensure_ascii=False)
     bad = [r for r in results if not r["ok"]]
-    print("pysim: scripts=%d results=%d failing=%d" % (len(scripts), len(results), len(bad)))
+    print("pysim: scripts=%d results=%d failing=%d" % (nscripts, len(results), len(bad)))
     return 0 if not bad else 1
 
 
